@@ -250,8 +250,11 @@ package stdlibspec
 //@   requires typeis(v, *ResponseRefs)
 //@   assigns cell(as(v, *ResponseRefs)), lastDecodedRefs
 //@   ensures lastDecodedRefs == *as(v, *ResponseRefs)                 # ghost-update
+// encoding/json only round-trips valid UTF-8 strings: a stored reference handed to it must have
+// been escaped (C04, C09, C19)
 //@ extern encoding/json.Marshal(v)
 //@   pure
+//@   requires typeis(v, responseRefJSON) ==> validUTF8(as(v, responseRefJSON).ResponseID) && validUTF8(as(v, responseRefJSON).Vary) && (forall k string :: has(as(v, responseRefJSON).VaryResolved, k) ==> validUTF8(k) && validUTF8(get(as(v, responseRefJSON).VaryResolved, k)))     # name: index-strings-are-valid-utf8-when-written   props: C04 C09 C19
 //@ extern bytes.NewReader(b)
 //@   pure
 //@   ensures result != nil
@@ -571,3 +574,22 @@ package stdlibspec
 //@   ensures result2 == cutFound(s, sep) && result0 == cutBefore(s, sep) && result1 == cutAfter(s, sep)
 //@   ensures result2 ==> s == result0 + sep + result1
 //@   ensures !result2 ==> result0 == s && result1 == ""
+
+// net/http pieces used by the maintenance API
+//@ spec func pathValue(r *http.Request, name string) string
+//@ extern (*net/http.Request).PathValue(r, name)
+//@   pure
+//@   ensures result == pathValue(r, name)
+//@ extern net/http.Error
+//@   pure
+//@ iface net/http.ResponseWriter.Header(w)
+//@   pure
+//@   ensures result != nil
+//@ iface net/http.ResponseWriter.WriteHeader(w, code)
+//@   pure
+//@ iface net/http.ResponseWriter.Write(w, b)
+//@   pure
+
+// slices.ContainsFunc with a side-effect-free predicate
+//@ extern slices.ContainsFunc(s, f)
+//@   pure
